@@ -11,6 +11,7 @@ structure Snap where
   st : StatE         -- path, Go mode bits, uid, gid, size, mtime, link target (symlinks), rdev major/minor, xattrs
   ino : Nat
   nlink : Nat
+  sha : Path := []   -- content token of a regular file (uninterpreted)
 deriving Repr
 
 /-- insert into a child list kept sorted bytewise by name -/
